@@ -58,6 +58,19 @@ def main():
             got = np.array([res[m, idx[s]] for s in names])
             if not np.allclose(got, want, rtol=1e-5, atol=1e-6):
                 return dict(reproduced=True, call='deterministic simulation%s%s%s of %r from %r at t=%r' % (' (interface reused)' if reuse else '', ' (safe=True)' if safe and not reuse else '', ' (two unused species at zero listed first)' if inert else '', rxs, x0.tolist(), float(t)), observed=got.tolist(), expected=want.tolist())
+    # a run that needs the LAST rung of the integrator's step budget (more than 50000 and fewer than 500000 steps in one output interval:
+    # a small hmax over a wide gap): well-posed, so the solution - not an all-NaN give-up - is due
+    import math
+    k = rng.uniform(0.005, 0.02)
+    M = Model(species=['A', 'B'], reactions=[(['A'], ['B'], 'massaction', {'k': k})], initial_condition_dict={'A': 10.0, 'B': 0.0})
+    T = np.array([0.0, rng.uniform(300, 420)])
+    res = py_simulate_model(T, Model=M, stochastic=False, return_dataframe=False, hmax=0.005).py_get_result()
+    idx = M.get_species2index()
+    n += 1
+    want = 10.0 * math.exp(-k * T[1])
+    if not abs(res[1, idx['A']] - want) <= 1e-4:
+        return dict(reproduced=True, call='deterministic simulation of A -> B (k=%r) on %r with hmax=0.005 (about %d integrator steps in one interval)' % (k, T.tolist(), int(T[1] / 0.005)),
+                    observed=res[1].tolist(), expected='A(%r) = %r' % (T[1], want))
     return dict(reproduced=False, evaluations=n)
 
 
